@@ -257,3 +257,43 @@ Definition api_cast_as (x : expr query) (ty : str) : expr query :=
 Definition api_in_subquery (x : expr query) (s : select) : expr query :=
   EBinary x BIn (ESubQuery None (QSelect s)).
 Definition api_exists (s : select) : expr query := ESubQuery (Some SqExists) (QSelect s).
+
+(* CommonTableExpression::from_select (src/query/with.rs): the table name is cte_<name of the first FROM table (its
+   alias when it has one)>, the column list is taken from the select list when every item is an aliased expression
+   or a plain column reference (t.c becomes t_c, s.t.c becomes s_t_c), otherwise it stays empty.  None = no table
+   name could be derived (rendering then panics on the missing name). *)
+Definition us : str := [95].
+Definition cte_cols_of_selects (sel : list selexpr) : option (list str) :=
+  (fix go (l : list selexpr) : option (list str) :=
+     match l with
+     | [] => Some []
+     | SelExpr e al _ :: t =>
+         let c := match al with
+                  | Some a => Some a
+                  | None => match e with
+                            | EColumn (CCol c) => Some c
+                            | EColumn (CTblCol tb c) => Some (tb ++ us ++ c)
+                            | EColumn (CSchTblCol sc tb c) => Some (sc ++ us ++ tb ++ us ++ c)
+                            | _ => None
+                            end
+                  end in
+         match c, go t with Some c, Some r => Some (c :: r) | _, _ => None end
+     end) sel.
+Definition cte_from_select (s : select) : option cte :=
+  match s with
+  | Select _ sels from _ _ _ _ _ _ _ _ _ _ _ _ _ =>
+      let name :=
+        match from with
+        | TPlain t :: _ =>
+            Some (match t with
+                  | TRTable t | TRSchemaTable _ t | TRDbSchemaTable _ _ t => t
+                  | TRTableAlias _ a | TRSchemaTableAlias _ _ a | TRDbSchemaTableAlias _ _ _ a => a
+                  end)
+        | _ => None
+        end in
+      match name with
+      | Some n =>
+          Some (Cte ([99; 116; 101; 95] ++ n) (match cte_cols_of_selects sels with Some c => c | None => [] end) (QSelect s) None)
+      | None => None
+      end
+  end.
